@@ -1,6 +1,7 @@
 from driver import Check, Inst
 
 STUBS = "#[kani::stub(std::string::String::from_utf8, from_utf8_ascii)] #[kani::stub(str::to_lowercase, to_lowercase_ascii)] "
+STUBS_U = "#[kani::stub(std::string::String::from_utf8, from_utf8_model)] #[kani::stub(str::to_lowercase, to_lowercase_ascii)] "
 OPN = {1: "rrq", 2: "wrq", 3: "data", 4: "ack", 5: "error", 6: "oack"}
 
 
@@ -20,9 +21,9 @@ def badop(l, op):
                 {"datagram_length": l, "opcode": op, "other_bytes": "all symbolic"}, timeout=300)
 
 
-def tmpl(tag, data, positions, stable=False, real_utf8=False, timeout=600, mem_kb=None, unw=34, badutf8=False):
+def tmpl(tag, data, positions, stable=False, real_utf8=False, timeout=600, mem_kb=None, unw=34, badutf8=False, utf8_model=False):
     name = "c10_t_%s_p%s%s%s" % (tag, "_".join(str(p) for p in positions), "_stable" if stable else "", "_utf8" if real_utf8 else "")
-    attr = "" if real_utf8 else STUBS
+    attr = "" if real_utf8 else (STUBS_U if utf8_model else STUBS)
     inv = "c10_template!(%s%s, [%s], [%s], %s, %s, %d);" % (attr, name, ",".join(str(x) for x in data), ",".join(str(p) for p in positions),
                                                          "true" if stable else "false", "true" if badutf8 else "false", unw)
     return Inst(name, "packet", inv, "c10_template",
@@ -49,6 +50,16 @@ OACK_W = b"\x00\x06windowsize\x0065535\x00"
 ERR = b"\x00\x05\x00\x01xy\x00"
 RRQ_PLUS = b"\x00\x01f\x00o\x00tsize\x00+5\x00"
 RRQ_UNK = b"\x00\x01f\x00o\x00foo\x00bar\x00blksize\x008\x00"
+
+
+def utf8_requests():
+    """Valid multi-byte UTF-8 in request strings (concrete), through a UTF-8 *model* of String::from_utf8 (the real validator
+    is not affordable on requests): the decoder must hand back the same bytes.  Invalid UTF-8 in requests stays outside."""
+    out = []
+    for n, data in enumerate([b"\x00\x01\xc3\xa9\x00octet\x00", b"\x00\x02a\xe2\x82\xac\x00m\xc3\xa9\x00blksize\x008\x00",
+                              b"\x00\x01\xc3\xa9\xc3\xa9\x00o\x00"]):
+        out.append(tmpl("utf8req_n%d" % n, data, [], utf8_model=True))
+    return out
 
 
 def build(tier, seed):
@@ -108,6 +119,7 @@ def build(tier, seed):
     # non-ASCII message bytes through the real String::from_utf8: affordable for ERROR only.  The same for RRQ/WRQ/OACK
     # (concrete bytes!) did not finish in 600 s: the real validator runs on the heap copy made by Convert::to_string and is
     # not constant-folded.  Non-ASCII bytes inside request strings are therefore OUTSIDE the claim (seeds C10d-a, C11d-a).
+    I += utf8_requests()
     for n, (data, bad) in enumerate([(b"\x00\x05\x00\x01\xc3\xa9\x00", False), (b"\x00\x05\x00\x02\xff\x00", True)]):
         I.append(tmpl("utf8_%s_n%d" % ("bad" if bad else "ok", n), data, [], real_utf8=True, badutf8=bad))
     if tier == "thorough":
